@@ -29,7 +29,7 @@ From TLV Require Import Base.Shape Base.PyList Base.Tensor Base.BigSum Model.Bas
   Proofs.TenalgProofs Proofs.TenalgProofsKR Proofs.TenalgProofsEinsum Proofs.TenalgProofsInner
   Proofs.TenalgProofsOuter Proofs.TenalgProofsSample Proofs.TenalgProofsSort Proofs.TenalgProofsEinsumVec Proofs.TenalgProofsMulti Proofs.TenalgProofsEinsumInner
   Proofs.TenalgProofsEinsumMttkrp Proofs.TenalgProofsEinsumKR Proofs.TenalgProofsEinsumOuter Proofs.TenalgProofsMultiGen Proofs.TenalgProofsMultiGen2 Proofs.TenalgProofsMemory
-  Proofs.TenalgProofsTdotE Proofs.TenalgProofsTdotC Proofs.TenalgProofsEinsumMulti Proofs.TenalgProofsValidate Proofs.TenalgProofsTdotInner Proofs.TenalgProofsKRBcast Proofs.TenalgProofsNegMode Proofs.TenalgProofsNegMulti Proofs.TenalgProofsReject Proofs.TenalgProofsRepeat Proofs.TenalgProofsEq.
+  Proofs.TenalgProofsTdotE Proofs.TenalgProofsTdotC Proofs.TenalgProofsEinsumMulti Proofs.TenalgProofsValidate Proofs.TenalgProofsTdotInner Proofs.TenalgProofsKRBcast Proofs.TenalgProofsNegMode Proofs.TenalgProofsNegMulti Proofs.TenalgProofsReject Proofs.TenalgProofsRepeat Proofs.TenalgProofsEq Proofs.TenalgProofsAnyModes.
 Import ListNotations.
 
 Definition ring_of {F} (Op : rops F) := ring_theory (r0 Op) (r1 Op) (radd Op) (rmul Op) (rsub Op) (ropp Op) (@eq F).
@@ -179,12 +179,10 @@ Example C02_multi_mode_dot_negative_modes_before_92eb2a5 :
   multi_mode_dot_e_z ZR T [v0; v2] [0; -1]%Z None false = Ok (mk [2] [53; 77]%Z).
 Proof. exact multi_mode_dot_negative_modes_before_92eb2a5. Qed.
 
-(* the SAME mode named twice (matrix operands).  Core: the successive products in listing order, T x_m A x_m B - FULL
-   (C02_multi_mode_dot_core_repeated_mode; each product is C02_mode_dot_core).  Einsum backend AS IT IS: contracts every operand
-   with the tensor's original label and overwrites the output label - REFUTED by computed witnesses (a different tensor, or a
-   size error on a well-formed successive product; known finding einsum_multi_mode_dot_repeated_modes, fix candidate
-   build/fix_candidates/C02_einsum_multi_mode_dot_repeated_modes.diff); what does hold (PARTIAL, restricted to pairwise distinct
-   modes): core = einsum. *)
+(* the SAME mode named twice (matrix operands): the successive products in listing order, T x_m A x_m B - FULL for the core
+   backend (C02_multi_mode_dot_core_repeated_mode; each product is C02_mode_dot_core); the einsum backend follows since /repo
+   a6246d0 (current label and current size at the position) - its old rule is the labelled regression Example
+   C02_multi_mode_dot_einsum_repeated_modes_before_a6246d0. *)
 Theorem C02_multi_mode_dot_core_repeated_mode : forall (F : Type) (Op : rops F) (T A B : tensor F) (m : nat) (tr : bool),
   ndim A <> 1 ->
   multi_mode_dot Op T [A; B] (Some [m; m]) None tr =
@@ -193,40 +191,49 @@ Theorem C02_multi_mode_dot_core_repeated_mode : forall (F : Type) (Op : rops F) 
 Proof. exact @multi_mode_dot_core_repeated_mode. Qed.
 Print Assumptions C02_multi_mode_dot_core_repeated_mode.
 
-Theorem C02_multi_mode_dot_einsum_repeated_modes_refuted :
-  exists (T A B A3 B3 Rc Re R3 : tensor Z),
-    multi_mode_dot ZR T [A; B] (Some [1; 1]) None false = Ok Rc /\
-    rbind (mode_dot ZR T A 1 false) (fun R => mode_dot ZR R B 1 false) = Ok Rc /\
-    multi_mode_dot_e ZR T [A; B] (Some [1; 1]) None false = Ok Re /\ Rc <> Re /\
-    multi_mode_dot ZR T [A3; B3] (Some [1; 1]) None false = Ok R3 /\
-    multi_mode_dot_e ZR T [A3; B3] (Some [1; 1]) None false = Err.
-Proof. exact multi_mode_dot_einsum_repeated_modes_refuted. Qed.
-Print Assumptions C02_multi_mode_dot_einsum_repeated_modes_refuted.
+Example C02_multi_mode_dot_einsum_repeated_modes_before_a6246d0 :
+  let T : tensor Z := mk [2; 2] [1; 2; 3; 4]%Z in
+  let A : tensor Z := mk [2; 2] [1; 1; 0; 2]%Z in let B : tensor Z := mk [2; 2] [1; -1; 2; 1]%Z in
+  let A3 : tensor Z := mk [3; 2] [1; 0; 0; 1; 1; 1]%Z in let B3 : tensor Z := mk [1; 3] [1; 2; 3]%Z in
+  multi_mode_dot ZR T [A; B] (Some [1; 1]) None false = Ok (mk [2; 2] [-1; 10; -1; 22]%Z) /\
+  multi_mode_dot_e_before_a6246d0 ZR T [A; B] (Some [1; 1]) None false = Ok (mk [2; 2] [-5; 8; -9; 18]%Z) /\
+  multi_mode_dot_e ZR T [A; B] (Some [1; 1]) None false = Ok (mk [2; 2] [-1; 10; -1; 22]%Z) /\
+  multi_mode_dot ZR T [A3; B3] (Some [1; 1]) None false = Ok (mk [2; 1] [14; 32]%Z) /\
+  multi_mode_dot_e_before_a6246d0 ZR T [A3; B3] (Some [1; 1]) None false = Err /\
+  multi_mode_dot_e ZR T [A3; B3] (Some [1; 1]) None false = Ok (mk [2; 1] [14; 32]%Z).
+Proof. exact multi_mode_dot_einsum_repeated_modes_before_a6246d0. Qed.
 
-Corollary C02_multi_mode_dot_distinct_modes_backends_agree_partial : forall (F : Type) (Op : rops F), ring_of Op ->
-  forall (T : tensor F) (Ms : list (tensor F)) (modes : option (list nat)) (skip : option nat) (tr : bool),
-  let L := filter (fun x => negb (is_skip skip (snd x))) (sort_by_mode (zip3 Ms modes)) in
-  wf T -> 0 < prod (shape T) -> NoDup (map (@t_mode F) L) -> Forall (operand_fits tr (shape T)) L ->
-  multi_mode_dot Op T Ms modes skip tr = multi_mode_dot_e Op T Ms modes skip tr.
-Proof. exact @multi_mode_dot_backends_agree. Qed.
-Print Assumptions C02_multi_mode_dot_distinct_modes_backends_agree_partial.
+(* core = einsum for ARBITRARY lists of Python modes - repeated, negative, out of range, any order, with skip and transpose, operands
+   that fit or not: both backends return the same tensor or both reject (multi_mode_dot_z / multi_mode_dot_e_z are the literal
+   loops of the two backends: resolve, sort, mode - decrement resolved from the end; the einsum loop contracts the current label
+   and its size check is einsum_sizes_ok on the final equation).  Hypotheses: tensor and operands well-formed with non-empty index
+   spaces - nothing about the modes or the sizes.  FULL since /repo a6246d0. *)
+Theorem C02_multi_mode_dot_any_mode_list_backends_agree : forall (F : Type) (Op : rops F), ring_of Op ->
+  forall (T : tensor F) (Ms : list (tensor F)) (ms : list Z) (skip : option nat) (tr : bool),
+  wf T -> 0 < prod (shape T) -> (forall M, In M Ms -> wf M /\ 0 < prod (shape M)) ->
+  multi_mode_dot_z Op T Ms ms skip tr = multi_mode_dot_e_z Op T Ms ms skip tr.
+Proof. exact @multi_mode_dot_z_backends_agree_any. Qed.
+Print Assumptions C02_multi_mode_dot_any_mode_list_backends_agree.
+
+Example C02_nonvacuous_multi_mode_dot_any_mode_list :
+  let T : tensor GI := mk [2; 2] [(1, 1); (0, 2); (-1, 0); (3, -1)]%Z in
+  let v : tensor GI := mk [2] [(1, 0); (0, 1)]%Z in
+  let M : tensor GI := mk [2; 3] [(1, 0); (0, 1); (2, 0); (0, -1); (1, 1); (0, 0)]%Z in
+  let u : tensor GI := mk [3] [(1, 0); (2, 0); (0, 1)]%Z in
+  wf T /\ 0 < prod (shape T) /\ (forall X, In X [M; u; v] -> wf X /\ 0 < prod (shape X)) /\
+  multi_mode_dot_z GR T [M; u; v] [1; -1; 0]%Z None true = multi_mode_dot_e_z GR T [M; u; v] [1; -1; 0]%Z None true /\
+  exists R, multi_mode_dot_e_z GR T [M; u; v] [1; -1; 0]%Z None true = Ok R.
+Proof. exact multi_mode_dot_any_modes_nonvacuous. Qed.
 
 (* np.einsum's broadcasting (einsum_np: label size = largest axis size, a size-1 axis is broadcast, anything else raises): when all
    axes of every label agree (einsum_sizes_ok) nothing is broadcast and the call is the plain einsum of the theorems - FULL.
-   Since /repo 8b25fc6 the einsum multi_mode_dot checks the contracted dimension of every non-skipped operand against the size of
-   its mode (fit_one) and rejects a misfit - also a size-1 one - as the core backend does (C02_multi_mode_dot_einsum_rejects_misfit);
-   the behaviour before (np.einsum broadcast the size-1 axis) is the labelled regression Example. *)
+   Since /repo 8b25fc6 / a6246d0 the einsum multi_mode_dot checks the contracted dimension of every non-skipped operand against the
+   current size at its position and rejects a misfit - also a size-1 one - as the core backend does (modelled as einsum_sizes_ok on
+   the final equation); the behaviour before (np.einsum broadcast the size-1 axis) is the labelled regression Example. *)
 Theorem C02_einsum_np_no_broadcast : forall (F : Type) (Op : rops F) (ins : list (list nat)) (out : list nat) (ts : list (tensor F)),
   length ins = length ts -> einsum_sizes_ok ins ts = true -> einsum_np Op ins out ts = Ok (einsum Op ins out ts).
 Proof. exact @einsum_np_sizes_ok. Qed.
 Print Assumptions C02_einsum_np_no_broadcast.
-
-Theorem C02_multi_mode_dot_einsum_rejects_misfit : forall (F : Type) (Op : rops F) (T : tensor F) (Ms : list (tensor F))
-  (modes : option (list nat)) (skip : option nat) (tr : bool),
-  (exists x, In x (sort_by_mode (zip3 Ms modes)) /\ is_skip skip (snd x) = false /\ fit_one (shape T) tr (fst (fst x)) (t_mode x) = false) ->
-  multi_mode_dot_e Op T Ms modes skip tr = Err.
-Proof. exact @multi_mode_dot_e_rejects_misfit. Qed.
-Print Assumptions C02_multi_mode_dot_einsum_rejects_misfit.
 
 Example C02_multi_mode_dot_einsum_size1_before_8b25fc6 :
   let T : tensor Z := mk [2; 2] [1; 2; 3; 4]%Z in let M : tensor Z := mk [2; 1] [1; 2]%Z in
